@@ -1,6 +1,7 @@
 //! C13: look-behind needs a fixed length; the static size facts are sound.
 
 use crate::common::*;
+use crate::counts;
 use crate::engine::{self, CompileFail};
 use crate::expr_ir;
 use crate::props::c05::unr_atoms;
@@ -222,19 +223,24 @@ pub fn run_c13(cx: &Ctx) -> i32 {
         filter: Some(has_lb),
         shadow: false,
         alphabet: vec!['a', 'b', 'é', '€'],
-        max_len: 3, text_list: None, offset0_only: false,
+        max_len: 3, text_list: None, offset0_only: false, letter_names: false,
     };
     let t2 = refsweep::run(cx, &lb_space, &cfg);
     t.count("oracleC_programs", t2.programs);
     t.count("oracleC_evaluations", t2.evaluations);
     t.merge(t2);
+    let (dense, top) = if cx.quick() { (1100, 20_000) } else { (4200, 20_000) };
+    let t4 = counts::sweep(counts::Which::C13, dense, top);
+    t.count("large_count_sweep_programs", t4.programs);
+    t.count("large_count_sweep_evaluations", t4.evaluations);
+    t.merge(t4);
     finish(
         cx,
         t,
         Finish {
             rule: format!(
-                "A: every pattern of {} is parsed (Expr::parse_tree), analysed (hook H2, same tree shape) and run through the all-paths span recorder of the reference matcher over every text over {:?} up to length {} and every start; for every sub-expression node: min(observed character lengths) >= min_size and const_size implies every observed length == min_size (observation is a lower approximation, so this cannot raise a false alarm). B: a pattern with a look-behind one of whose top-level alternatives shows two observed lengths must be rejected, with CompileError::LookBehindNotConst. C: every accepted look-behind pattern of the look-behind sub-spaces, differential against the reference over texts over [a,b,e-acute,euro] (characters, not bytes; fails rather than reading before the start). distinct_nontrivial = sub-expression nodes with >= 2 distinct observed lengths plus non-trivial differential cases",
-                space.describe(), alphabet, max_len
+                "A: every pattern of {} is parsed (Expr::parse_tree), analysed (hook H2, same tree shape) and run through the all-paths span recorder of the reference matcher over every text over {:?} up to length {} and every start; for every sub-expression node: min(observed character lengths) >= min_size and const_size implies every observed length == min_size (observation is a lower approximation, so this cannot raise a false alarm). B: a pattern with a look-behind one of whose top-level alternatives shows two observed lengths must be rejected, with CompileError::LookBehindNotConst. C: every accepted look-behind pattern of the look-behind sub-spaces, differential against the reference over texts over [a,b,e-acute,euro] (characters, not bytes; fails rather than reading before the start). distinct_nontrivial = sub-expression nodes with >= 2 distinct observed lengths plus non-trivial differential cases; D: a {}",
+                space.describe(), alphabet, max_len, counts::describe(counts::Which::C13, dense, top)
             ),
             exhaustive: true,
             bounds: jobj! {"space" => space.describe(), "max_text_len" => max_len, "node_bound" => k},
